@@ -30,7 +30,7 @@ pub fn strip_ansi(s: &str) -> String {
 /// Judge one (definition text, width). Returns the plain rendering (for threshold counting).
 pub fn judge(ctx: &Ctx, text: &str, width: usize, count_case: bool) -> Option<String> {
     let wit = |m: String, extra: Value| json!({"engine": "c10", "text": text, "width": width, "message": m, "detail": extra});
-    let r = std::panic::catch_unwind(|| -> Result<(String, String, String), (String, String, Value)> {
+    let r = std::panic::catch_unwind(|| -> Result<(String, String, String, usize), (String, String, Value)> {
         let d = IDL::try_from(text).map_err(|e| ("harness:input-rejected".to_string(), format!("{}", e), Value::Null))?;
         let orig = from_impl(&d);
         let f = d.get_multiline(0, width);
@@ -48,7 +48,10 @@ pub fn judge(ctx: &Ctx, text: &str, width: usize, count_case: bool) -> Option<St
         if f2 != f {
             return Err(("c10:not-idempotent".into(), "formatting the formatted text again gives a different text".into(), json!({"first": f, "second": f2})));
         }
-        Ok((f, fc, disp))
+        // escape characters that legitimately appear in the output: those inside the attached
+        // documentation comments (kept verbatim); comments elsewhere are dropped by the formatter
+        let doc_esc: usize = orig.comments.iter().chain(orig.members.iter().flat_map(|m| m.comments.iter())).map(|c| c.matches('\u{1b}').count()).sum();
+        Ok((f, fc, disp, doc_esc))
     });
     match r {
         Err(_) => {
@@ -65,8 +68,12 @@ pub fn judge(ctx: &Ctx, text: &str, width: usize, count_case: bool) -> Option<St
             ctx.violation(&sig, wit(m, extra));
             None
         }
-        Ok(Ok((f, fc, disp))) => {
-            if strip_ansi(&fc) != strip_ansi(&f) {
+        Ok(Ok((f, fc, disp, doc_esc))) => {
+            if f.matches('\u{1b}').count() != doc_esc {
+                // the plain rendering is plain whatever the process-wide colour settings are
+                // (forced on here, and other threads render coloured text at the same time)
+                ctx.violation("c10:plain-rendering-contains-escape-sequences", wit("get_multiline() returned text with escape sequences that are not in the source (comments may contain some; they are kept verbatim)".into(), json!({"plain": f})));
+            } else if strip_ansi(&fc) != strip_ansi(&f) {
                 ctx.violation("c10:colored-differs-from-plain", wit("the colored rendering differs from the plain one by more than escape sequences".into(), json!({"plain": f, "colored": fc})));
             } else if width == 80 && disp != f {
                 ctx.violation("c10:display-differs-from-multiline-80", wit("to_string() != get_multiline(0, 80)".into(), json!({"display": disp, "multiline": f})));
@@ -92,6 +99,9 @@ pub fn main(ctx: &Ctx, repo_bin_dir: Option<String>) -> i32 {
     ctx.set_rule("grammar-directed definitions (all type constructors nested <=3, docs with arbitrary Unicode/ESC bytes, keyword-like names) rendered with three trivia levels (every whitespace code point, all five line-ending conventions, comments inside structs) x every width 0..200 plus 1000, 65535, usize::MAX; the CLI `varlink format` is compared with the in-process rendering on a sample; distinct = (definition, width); non-trivial = the rendering at this width differs from the one at width-1 (a fit/no-fit threshold is crossed) or the definition has documentation");
     ctx.assume("re-parsing uses the parser under test (its correctness is C11's business); member order is compared per kind, the only order the public IDL fields expose");
     ctx.assume("escape sequences are stripped from both renderings before comparing, because comments may legally contain ESC bytes");
+    // colours are forced on for the whole process, through the environment as well as through
+    // the override: what the plain renderings return must not depend on either
+    std::env::set_var("CLICOLOR_FORCE", "1");
     colored::control::set_override(true);
     let ndefs = ctx.tier.pick(300usize, 60_000usize);
     let ws = widths();
@@ -167,6 +177,9 @@ pub fn main(ctx: &Ctx, repo_bin_dir: Option<String>) -> i32 {
 }
 
 pub fn replay(ctx: &Ctx, w: &Value) {
+    // colours are forced on for the whole process, through the environment as well as through
+    // the override: what the plain renderings return must not depend on either
+    std::env::set_var("CLICOLOR_FORCE", "1");
     colored::control::set_override(true);
     let text = w.get("text").and_then(|v| v.as_str()).unwrap_or("");
     let width = w.get("width").and_then(|v| v.as_u64()).unwrap_or(80) as usize;
